@@ -212,6 +212,94 @@ type vf7H struct {
 	s *StateTrie
 }
 
+// diskAndGC: the database below the trie. (1) an older, still unflushed root is dereferenced
+// (garbage collected): the current root shares nodes with it and must stay complete; (2) the
+// current root is written to disk (Commit, or Cap(0) which flushes everything) and opened again
+// through a FRESH trie database over the same key-value store - what a restarted node sees.
+func (c *vf7Case) diskAndGC(root common.Hash) bool {
+	r := c.r
+	if len(c.olds) > 0 && r.Chance(50) {
+		old := c.olds[0]
+		if old.root != root && old.root != types.EmptyRootHash {
+			kept := c.olds[:0:0]
+			for _, x := range c.olds {
+				if x.root != old.root { // the same content may have been committed more than once
+					kept = append(kept, x)
+				}
+			}
+			c.olds = kept
+			c.note(fmt.Sprintf("dereference(%x)", old.root[:4]))
+			var err error
+			if !c.guard("db.Dereference", func() { err = c.db.Dereference(old.root) }) {
+				return false
+			}
+			if err != nil {
+				c.viol("C07/dereference-error", err.Error())
+				return false
+			}
+			c.o.Stat("db.dereference")
+			var vh vf7H
+			if !c.guard("reopen after dereference", func() { vh, err = vf7Open(c.secure, root, c.db) }) {
+				return false
+			}
+			if err != nil {
+				c.viol("C07/reopen-content-differs", fmt.Sprintf("root %x cannot be opened after an OLDER root was dereferenced: %v", root, err))
+				return false
+			}
+			if !c.checkContent(vh, c.shadow, "C07/reopen-content-differs", "current root after an older root was dereferenced") {
+				return false
+			}
+		}
+	}
+	how := "Commit"
+	var err error
+	if r.Chance(30) {
+		how = "Cap(0)"
+		if !c.guard("db.Cap", func() { err = c.db.Cap(0) }) {
+			return false
+		}
+	} else if !c.guard("db.Commit", func() { err = c.db.Commit(root, false) }) {
+		return false
+	}
+	if err != nil {
+		c.viol("C07/db-flush-error", fmt.Sprintf("%s: %v", how, err))
+		return false
+	}
+	c.note("flush:" + how)
+	c.o.Stat("db.flush." + how)
+	fresh := NewDatabase(c.disk)
+	var vh vf7H
+	if !c.guard("reopen from disk", func() { vh, err = vf7Open(c.secure, root, fresh) }) {
+		return false
+	}
+	if err != nil {
+		c.viol("C07/reopen-from-disk-differs", fmt.Sprintf("root %x written with %s cannot be opened from the key-value store: %v", root, how, err))
+		return false
+	}
+	if !c.checkContent(vh, c.shadow, "C07/reopen-from-disk-differs", "trie reopened from the key-value store after "+how) {
+		return false
+	}
+	var h2 common.Hash
+	if !c.guard("hash of the trie reopened from disk", func() { h2 = vh.hash() }) {
+		return false
+	}
+	if h2 != root {
+		c.viol("C07/reopen-from-disk-differs", fmt.Sprintf("%s wrote root %x, the trie read back hashes to %x", how, root, h2))
+		return false
+	}
+	// the working database keeps serving the root after the flush (nodes moved from dirty to clean/disk)
+	if !c.guard("reopen after flush", func() { vh, err = vf7Open(c.secure, root, c.db) }) {
+		return false
+	}
+	if err != nil || !c.checkContent(vh, c.shadow, "C07/reopen-content-differs", "working database after "+how) {
+		if err != nil {
+			c.viol("C07/reopen-content-differs", fmt.Sprintf("root %x cannot be opened from the working database after %s: %v", root, how, err))
+		}
+		return false
+	}
+	return true
+}
+
 func vf7Open(secure bool, root common.Hash, db *Database) (vf7H, error) {
 	if secure {
 		s, err := NewStateTrie(StateTrieID(root), db)
@@ -496,6 +584,7 @@ type vf7Case struct {
 	secure bool
 	fixed  bool
 	db     *Database
+	disk   *memorydb.Database // the key-value store under db: what survives a restart
 	h      vf7H
 	parent common.Hash // root last handed to db.Update
 
@@ -1093,6 +1182,11 @@ func (c *vf7Case) opCommit() {
 	}
 	if r.Chance(50) {
 		c.checkRoot(root)
+	}
+	if nodes != nil && !leaf && r.Chance(35) {
+		if !c.diskAndGC(root) {
+			return
+		}
 	}
 	if len(c.olds) < 3 {
 		c.olds = append(c.olds, vf7Old{root, vf7CloneMap(c.shadow)})
@@ -2131,7 +2225,8 @@ func TestVerifC07(t *testing.T) {
 			o.Stat("case.eager")
 		}
 		o.Stat("case.uni." + c.uni)
-		c.db = NewDatabase(memorydb.New())
+		c.disk = memorydb.New()
+		c.db = NewDatabase(c.disk)
 		ok := c.guard("open empty trie", func() {
 			h, err := vf7Open(c.secure, types.EmptyRootHash, c.db)
 			if err != nil {
